@@ -81,9 +81,12 @@ def pf_config(ec, thr, labels=("car", "pedestrian")):
     return PerceptionPassFailConfig(ec, list(labels), matching_threshold_list=thr)
 
 
-def evaluate_frame(ec, object_results, gt_objects, ego, crit, thr, labels=("car", "pedestrian"), previous=None, unix_time=100, name="0"):
+def evaluate_frame(ec, object_results, gt_objects, ego, crit, thr, labels=("car", "pedestrian"), previous=None, unix_time=100, name="0", pf_labels=None,
+                   pf_thr=None):
+    """pf_labels / pf_thr: label order and thresholds of the pass/fail configuration when they are listed differently from the critical filter's."""
     fg = frame_gt(gt_objects, ego, unix_time, name)
-    fr = PerceptionFrameResult(list(object_results), fg, ec.metrics_config, crit_config(ec, crit, labels), pf_config(ec, thr, labels),
+    fr = PerceptionFrameResult(list(object_results), fg, ec.metrics_config, crit_config(ec, crit, labels),
+                               pf_config(ec, pf_thr if pf_thr is not None else thr, pf_labels if pf_labels is not None else labels),
                                unix_time, ec.target_labels)
     fr.evaluate_frame(previous_result=previous)
     return fr
